@@ -12,7 +12,22 @@ pub struct BfsStats<Op> {
     pub closed: bool,
     /// (history, message) of the first failing transition
     pub failure: Option<(Vec<Op>, String)>,
+    /// every failing transition found (bfs_all only); the state behind a failing transition is not expanded
+    pub failures: Vec<(Vec<Op>, String)>,
+    pub failing_transitions: u64,
     pub deepest: Vec<Op>,
+}
+
+/// Like `bfs`, but a failing transition does not end the search: it is recorded (at most
+/// `max_failures`) and the search goes on with the other transitions, so that one (known) defect does
+/// not hide the rest of the state space.
+pub fn bfs_all<Op: Clone, K: Ord + Clone>(
+    run: impl Fn(&[Op]) -> Result<(K, Vec<Op>), String>,
+    max_depth: usize,
+    max_states: u64,
+    max_failures: usize,
+) -> BfsStats<Op> {
+    bfs_impl(run, max_depth, max_states, max_failures)
 }
 
 pub fn bfs<Op: Clone, K: Ord + Clone>(
@@ -20,9 +35,18 @@ pub fn bfs<Op: Clone, K: Ord + Clone>(
     max_depth: usize,
     max_states: u64,
 ) -> BfsStats<Op> {
+    bfs_impl(run, max_depth, max_states, 1)
+}
+
+fn bfs_impl<Op: Clone, K: Ord + Clone>(
+    run: impl Fn(&[Op]) -> Result<(K, Vec<Op>), String>,
+    max_depth: usize,
+    max_states: u64,
+    max_failures: usize,
+) -> BfsStats<Op> {
     let mut seen: BTreeMap<K, ()> = BTreeMap::new();
     let mut frontier: VecDeque<(Vec<Op>, Vec<Op>)> = VecDeque::new();
-    let mut st = BfsStats { states: 0, transitions: 0, max_depth: 0, closed: true, failure: None, deepest: Vec::new() };
+    let mut st = BfsStats { states: 0, transitions: 0, max_depth: 0, closed: true, failure: None, failures: Vec::new(), failing_transitions: 0, deepest: Vec::new() };
     match run(&[]) {
         Ok((k, en)) => {
             seen.insert(k, ());
@@ -30,7 +54,8 @@ pub fn bfs<Op: Clone, K: Ord + Clone>(
             frontier.push_back((Vec::new(), en));
         }
         Err(e) => {
-            st.failure = Some((Vec::new(), e));
+            st.failure = Some((Vec::new(), e.clone()));
+            st.failures.push((Vec::new(), e));
             return st;
         }
     }
@@ -61,8 +86,16 @@ pub fn bfs<Op: Clone, K: Ord + Clone>(
                     }
                 }
                 Err(e) => {
-                    st.failure = Some((h, e));
-                    return st;
+                    if st.failure.is_none() {
+                        st.failure = Some((h.clone(), e.clone()));
+                    }
+                    if st.failures.len() < max_failures {
+                        st.failures.push((h, e));
+                    }
+                    st.failing_transitions += 1;
+                    if max_failures == 1 {
+                        return st;
+                    }
                 }
             }
         }
